@@ -400,6 +400,9 @@ def run(tier, seed):
         with warnings.catch_warnings():
             warnings.simplefilter("ignore")
             ext_userobs.run(chk, tier, seed)
+        # the schedule for UNBOUNDED requests (spec/StatsInd.tla, Apalache) and Stats.tla's refinement of it
+        import ext_apalache_stats
+        ext_apalache_stats.run(chk, tier, seed)
     chk.assumptions += [
         "nn_state.sample is observed through a wrapper installed on the instance; its contract (initial_state=None -> "
         "fresh buffer, overwrite=True -> works in place and returns its argument) is the environment of the schedule model",
